@@ -633,11 +633,12 @@ func (s *session) probe() bool {
 		}
 		var hashes []types.Hash
 		if err := rlp.DecodeBytes(m.payload, &hashes); err == nil && uint64(len(hashes)) == n {
-			own := true
+			up, down := true, true
 			for i, h := range hashes {
-				own = own && h == s.hashAt[k+uint64(i)]
+				up = up && h == s.hashAt[k+uint64(i)]
+				down = down && h == s.hashAt[k+n-1-uint64(i)]
 			}
-			if own {
+			if up || down {
 				out.Oracle(true, "message-loop-not-blocked", nil)
 				out.Count("fuzz:session-continues")
 				return true
